@@ -255,13 +255,15 @@ class Sequence:
             _operators.Jacobian(list(variables1)),
             _operators.Hessian(list(variables1), list(variables2)),
         ]
-        pairs = [(v1, v2) for v1 in variables1 for v2 in variables2 if v1 <= v2]
+        # every requested pair once, in sorted order; both variables need their first-order partials
+        pairs = sorted({tuple(sorted((v1, v2))) for v1 in variables1 for v2 in variables2})
+        order1 = list(dict.fromkeys([*variables1, *variables2]))
 
         def hessian(valuesdict=None, **values):
             values.update(valuesdict or {})
             sim, jac, hes = self.simulate(
                 values,
-                order1=variables1,
+                order1=order1,
                 order2=pairs,
                 probe=probe,
                 asarray=True,
